@@ -182,6 +182,15 @@ def prove_uf_abstracted(pc, c, timeout_ms):
     return "unsat" if s.check() == z3.unsat else "unknown"
 
 
+def check_fresh(constraints, timeout_ms):
+    """one-shot check of a conjunction with z3's QF_BV tactic solver: (z3 result, model or None)"""
+    s = z3.SolverFor("QF_ABV" if _has_arrays(constraints) else "QF_BV")
+    s.set("timeout", timeout_ms)
+    s.add(*constraints)
+    r = s.check()
+    return r, (s.model() if r == z3.sat else None)
+
+
 def uf_unsat(constraints, timeout_ms):
     """True if the conjunction is unsatisfiable already with * / % abstracted to uninterpreted functions"""
     try:
